@@ -9,6 +9,12 @@
 //   conf  act confPr dof p normal(p) student(p,dof)         => conf_int_coef()
 //   unk   m0 qxx                                            => unknown_stdev(i)
 //   obs   m0 sigmaApr qbb stdev r                           => weight_obs stdev_obs wcoef_res stdev_res studentized obs_control
+//         (stdev = sqrt of the observation's OWN variance: entry (k+1,k+1) of its cluster's covariance matrix, k its position
+//          in the cluster's observation_list found by pointer search over ALL observations -- independent of cluster_index
+//          and of Observation::stdDev())
+//   cidx  k flags d_1..d_n                                  => cluster_index stdDev()
+//         (k as above; flags = active() of every observation of the cluster as 0/1, in list order; d = diagonal of the
+//          cluster's covariance matrix; reported: the observation's cluster_index and what Observation::stdDev() returns)
 //   ell   cyy cyx cxx m0                                    => a b alfa
 //   cov   m0 q                                              => what LocalNetworkXML prints in <cov-mat> (recomputed the same way)
 // or   fail <reason>   when the network cannot be adjusted.
@@ -16,6 +22,7 @@
 #include <cstdio>
 #include <fstream>
 #include <iostream>
+#include <list>
 #include <sstream>
 #include <string>
 #include <gnu_gama/xml/gkfparser.h>
@@ -28,6 +35,13 @@
 
 using namespace GNU_gama::local;
 using vp::hex;
+
+// read access to the protected member Observation::cluster_index (explicit instantiation may name it)
+namespace {
+  template <typename Tag, typename Tag::type M> struct Rob { friend typename Tag::type peek(Tag) { return M; } };
+  struct ClusterIndexTag { typedef int Observation::*type; friend type peek(ClusterIndexTag); };
+  template struct Rob<ClusterIndexTag, &Observation::cluster_index>;
+}
 
 static void run(const std::string& path, const std::string& alg)
 {
@@ -85,12 +99,25 @@ static void run(const std::string& path, const std::string& alg)
   for (int i = 1; i <= rows; i++)
     {
       Observation* o = IS->ptr_obs(i);
-      const int band = o->ptr_cluster()->covariance_matrix.bandWidth();
+      const GNU_gama::Cluster<Observation>* cl = o->ptr_cluster();
+      const int band = cl->covariance_matrix.bandWidth();
+      const int cdim = int(cl->covariance_matrix.dim());
+      int k = -1, pos = 0;
+      std::string flags;
+      for (std::list<Observation*>::const_iterator it = cl->observation_list.begin(); it != cl->observation_list.end(); ++it, ++pos)
+        {
+          if (*it == o) k = pos;
+          flags += (*it)->active() ? '1' : '0';
+        }
+      const double own_var = (k >= 0 && k < cdim) ? cl->covariance_matrix(k + 1, k + 1) : std::nan("");
       std::cout << "obs " << hex(m0) << " " << hex(IS->apriori_m_0()) << " " << hex(IS->qbb(i, i)) << " "
-                << hex(o->stdDev()) << " " << hex(r(i))
+                << hex(std::sqrt(own_var)) << " " << hex(r(i))
                 << " => " << hex(IS->weight_obs(i)) << " " << hex(IS->stdev_obs(i)) << " " << hex(IS->wcoef_res(i))
                 << " " << hex(IS->stdev_res(i)) << " " << hex(IS->studentized_residual(i)) << " "
                 << hex(IS->obs_control(i)) << " # band=" << band << "\n";
+      std::cout << "cidx " << k << " " << flags;
+      for (int q = 1; q <= cdim; q++) std::cout << " " << hex(cl->covariance_matrix(q, q));
+      std::cout << " => " << o->*peek(ClusterIndexTag()) << " " << hex(o->stdDev()) << "\n";
     }
 
   for (PointData::const_iterator i = IS->PD.begin(); i != IS->PD.end(); ++i)
